@@ -19,7 +19,9 @@ import (
 	"path/filepath"
 	"reflect"
 	"runtime"
+	"strconv"
 	"sync"
+	"sync/atomic"
 	"testing"
 	"time"
 	"unsafe"
@@ -33,6 +35,7 @@ import (
 	"github.com/lightninglabs/neutrino/banman"
 	"github.com/lightninglabs/neutrino/blockntfns"
 	"github.com/lightninglabs/neutrino/headerfs"
+	"github.com/lightninglabs/neutrino/headerlist"
 )
 
 const (
@@ -54,6 +57,7 @@ type vbUniverse struct {
 	Headers     []vbHeaderSpec `json:"headers"`
 	Checkpoints map[string]int `json:"checkpoints"`
 	NPeers      int            `json:"npeers"`
+	MaxBatch    int            `json:"max_batch_len"`
 	AutoWork    bool           `json:"auto_work"`
 	Params      struct {
 		RetargetBlocks      int  `json:"retarget_blocks"`
@@ -348,6 +352,30 @@ type vbPathIn struct {
 		FFile []int `json:"ffile"`
 	} `json:"init"`
 	Steps []vbStepIn `json:"steps"`
+	// ListCap: capacity of the in-memory header list for this path (0: the
+	// code's own 10000); absent in generated paths, present in replay files.
+	ListCap *int `json:"list_cap,omitempty"`
+}
+
+// vbListCaps are the capacity classes of the block manager's bounded in-memory
+// header list (headerlist.BoundedMemoryChain). The list is a cache of the
+// store's tail: nothing the property observes may depend on its size, so the
+// model has no such parameter and every path is run with one of these: the
+// code's own 10000, and L+1 / L+2 slots where L is the longest headers message
+// of the universe. The ring then wraps from one message to the next, and
+// context lookups (median time, retarget ancestors, fork points) fall through
+// to the store after a few headers. Fewer than L+1 slots would not be a
+// scaled-down client but a different one: headers of the message being
+// validated live only in this list until the batch is written (the code keeps
+// 10000 slots for at most 2000 headers per message).
+func vbListCap(u *vbUniverse, id int) int {
+	switch id % 3 {
+	case 1:
+		return u.MaxBatch + 1
+	case 2:
+		return u.MaxBatch + 2
+	}
+	return 0
 }
 
 // vbFaultStore lets one batch write of the block manager fail the way a full
@@ -430,15 +458,18 @@ type vbStepOut struct {
 	Act  vbAct  `json:"act"`
 	Obs  vbObs  `json:"obs"`
 	Note string `json:"note,omitempty"`
+	Dump string `json:"dump,omitempty"`
 }
 type vbPathOut struct {
 	ID      int         `json:"id"`
 	InitObs vbObs       `json:"init_obs"`
 	Steps   []vbStepOut `json:"steps"`
 	Error   string      `json:"error,omitempty"`
+	ListCap int         `json:"list_cap"`
 }
 
 type vbEnv struct {
+	listCap int
 	c     *vbChain
 	dir   string
 	db    walletdb.DB
@@ -527,6 +558,11 @@ func (e *vbEnv) startManager() error {
 	})
 	if err != nil {
 		return err
+	}
+	if e.listCap > 0 {
+		back := *bm.headerList.Back()
+		bm.headerList = headerlist.NewBoundedMemoryChain(uint32(e.listCap))
+		bm.headerList.ResetHeaderState(headerlist.Node{Header: back.Header, Height: back.Height})
 	}
 	e.bm = bm
 	e.cands = list.New()
@@ -746,6 +782,36 @@ func (e *vbEnv) fhIDOf(h *chainhash.Hash) int {
 		return id
 	}
 	return vbG
+}
+
+// vbHangs counts steps that did not return within vbStepBound. After a few of
+// them the remaining paths are skipped (a handler that spins keeps its CPU).
+var vbHangs int32
+
+const vbMaxHangs = 4
+
+func vbStepBound() time.Duration {
+	if v, err := strconv.Atoi(os.Getenv("VERIF_STEP_BOUND_S")); err == nil && v > 0 {
+		return time.Duration(v) * time.Second
+	}
+	return 30 * time.Second
+}
+
+// execBounded runs one step on its own goroutine: a handler of the block
+// manager that never returns (e.g. a cycle in the in-memory header list) must
+// not hang the check. hung = the step did not return in time; the
+// environment is then abandoned, never touched again.
+func (e *vbEnv) execBounded(a vbAct) (out vbAct, hung bool) {
+	done := make(chan vbAct, 1)
+	go func() { done <- e.exec(a) }()
+	select {
+	case out = <-done:
+		return out, false
+	case <-time.After(vbStepBound()):
+		out = a
+		out.Res = "hang"
+		return out, true
+	}
 }
 
 func (e *vbEnv) exec(a vbAct) (out vbAct) {
@@ -1004,12 +1070,29 @@ func (w *vbWorker) runPath(p vbPathIn) (out vbPathOut) {
 			return
 		}
 	}
+	if atomic.LoadInt32(&vbHangs) >= vbMaxHangs {
+		out.Error = "skipped: the driver gave up after repeated steps that never returned"
+		out.Steps = []vbStepOut{}
+		return
+	}
 	e := w.e
+	hung := false
+	e.listCap = vbListCap(c.u, p.ID)
+	if p.ListCap != nil {
+		e.listCap = *p.ListCap
+	}
+	out.ListCap = e.listCap
 	defer func() {
 		if r := recover(); r != nil {
 			buf := make([]byte, 8192)
 			buf = buf[:runtime.Stack(buf, false)]
 			out.Error = fmt.Sprintf("driver panic: %v\n%s", r, buf)
+		}
+		if hung {
+			// the stuck goroutine may hold the manager's locks and the
+			// stores: leave everything to it
+			w.e = nil
+			return
 		}
 		e.stopManager()
 	}()
@@ -1045,9 +1128,18 @@ func (w *vbWorker) runPath(p vbPathIn) (out vbPathOut) {
 		if e.bm == nil {
 			break
 		}
-		a := e.exec(s.Act)
+		a, h := e.execBounded(s.Act)
 		if a.Batch == nil {
 			a.Batch = []int{}
+		}
+		if h {
+			hung = true
+			atomic.AddInt32(&vbHangs, 1)
+			buf := make([]byte, 1<<16)
+			buf = buf[:runtime.Stack(buf, true)]
+			out.Steps = append(out.Steps, vbStepOut{Act: a, Obs: out.lastObs(), Dump: "step did not return within " +
+				vbStepBound().String() + "; goroutines:\n" + string(buf)})
+			break
 		}
 		if e.bm == nil {
 			out.Steps = append(out.Steps, vbStepOut{Act: a, Obs: out.lastObs(), Note: "manager could not be restarted"})
